@@ -298,6 +298,17 @@ def cases(tier: str) -> list[dict]:
         out.append(case(f"concatenate/dt/{da}/{db}", ins,
                         {"op": "concatenate", "arrays": [1, 2], "axis": 0}, "concatenate",
                         [1, 2], axis=0))
+    # an EMPTY operand still takes part in type promotion (both positions, 3 operands)
+    for da, db in itertools.product(["i4", "f4", "f8", "c8", "b1", "i8"], repeat=2):
+        for sa, sb, tag in (((0,), (2,), "e0"), ((2,), (0,), "e1")):
+            out.append(case(f"concatenate/dt-empty/{tag}/{da}/{db}",
+                            [inp("a", sa, da), inp("b", sb, db)],
+                            {"op": "concatenate", "arrays": [1, 2], "axis": 0}, "concatenate",
+                            [1, 2], axis=0))
+        out.append(case(f"concatenate/dt-empty/mid/{da}/{db}",
+                        [inp("a", (2, 1), da), inp("b", (2, 0), db), inp("c", (2, 2), da)],
+                        {"op": "concatenate", "arrays": [1, 2, 3], "axis": 1}, "concatenate",
+                        [1, 2, 3], axis=1))
     # (7) reshape targets including -1
     for shape in [(), (6,), (2, 3), (0, 3), (2, 2, 3), (1,)]:
         size = int(np.prod(shape, dtype=np.int64))
